@@ -26,7 +26,7 @@ func init() {
 }
 
 type c06Params struct {
-	Bound       int `json:"bound"`       // hand-written and generated projects
+	Bound       int `json:"bound"` // hand-written and generated projects
 	CorpusBound int `json:"corpus_bound"`
 	ModelBudget int `json:"model_budget"`
 	MaxExec     int `json:"max_exec_per_project"`
@@ -68,10 +68,10 @@ var c06Projects = []struct{ Name, Text string }{
 }
 
 type c06Exec struct {
-	sites  []string
-	arity  []int
-	taken  []int
-	obs    string
+	sites []string
+	arity []int
+	taken []int
+	obs   string
 }
 
 // c06Run builds (and serialises) project p with the given choice prefix.
@@ -238,7 +238,7 @@ func workC06(w *run.W) {
 	for i, pr := range c06ProjectList(p.ModelBudget, dir) {
 		// shard w.Of ways but ALSO run every project in a second process (shard+1) for the cross-process comparison
 		mine := w.Mine(int64(i))
-		second := w.Of > 1 && int(int64(i)%int64(w.Of)) == (w.Shard+1)%w.Of
+		second := w.Of > 1 && (w.Owner(int64(i))+1)%w.Of == w.Shard
 		if !mine && !second {
 			continue
 		}
@@ -330,7 +330,7 @@ func runC06(c *chk.Ctx) {
 	for _, raw := range r.Emitted["obs"] {
 		var m struct {
 			Project, Hash string
-			Shard       int
+			Shard         int
 		}
 		if json.Unmarshal(raw, &m) == nil {
 			if byProj[m.Project] == nil {
